@@ -292,7 +292,7 @@ def run(ck, tier):
         ck.guard(_r14, ck, cx, kind, kcls, kf, kfps, 'R14', ' — writes are applied late and each response answers the previous request')
     ck.rule('R6', 'no write reaches the datastore before every guard and the range validation of that very range have passed (shared with C05 R2/R3)')
     from ..share import import_findings
-    import_findings(ck, 'C05', 'R6', ('R2', 'R3'), 'a request that is not valid changes the datastore')
+    import_findings(ck, 'C05', 'R6', ('R2', 'R3', 'R7'), 'a request that is not valid changes the datastore')
     ck.assume('statements of the receive loops other than the framer call and the transport read are treated as non-raising (logging, attribute reads)')
     ck.assume('what a decoded-but-nonsensical PDU does inside decode() is shown to be contained, not absent; resource exhaustion is not decided')
     from .. import ownership as _own
